@@ -209,3 +209,77 @@ Proof.
   destruct (fit_unique (udescs s) q); [reflexivity|]. destruct (fit_multi (mdescs s) q); reflexivity.
 Qed.
 End SelTree.
+
+(* ================================================================ the DUMPED pvSelectRec (all instantiations) is select_rec
+   pvSelectRec is a variadic template recursion: Gen_Protocol.T_pvSelectRec_all holds the statement tree of EVERY instantiated
+   overload (per number of remaining equalities, index kind and row-filter type).  step_tree / base_tree give one overload its
+   meaning; `all_same_code` shows that every instantiation is accepted by one of the two (so the recursion over an
+   equality list of any length may use the first step tree and the first base tree); rec_tree runs the recursion. *)
+Section RecTree.
+Variables (ct : Z -> row) (cols : list nat).
+
+(* one recursive overload on the equality e: Some (new tuple, new row filter) *)
+Definition step_tree (t : list pstmt) (e : eqn) (f : Z -> bool) (tuple : list eqn) : option (list eqn * (Z -> bool)) :=
+  match t with
+  | [SDecl off (EUn st (EVar offs));
+     SIf (ECall (EVar mi) co [EVar ix; EVar off1])
+       [SDecl nt (ECall ENone tc [ECall ENone mv [EVar tp]; ECall ENone mt [ECtor _ [EVar off2; ECall (EVar eq1) gi1 []]]]);
+        SReturn (ECall ENone rc1 (EVar ix1 :: EBin pl1 (EVar offs1) (ENum 1) :: EVar rf1 :: ECall ENone mv1 [EVar nt1] :: _))]
+       [SLambda nrf [SDecl raw (ECall ENone gr [EVar _]); SDecl item (ECall ENone gbo [EVar raw1; EVar off3]);
+                     SReturn (EBin an (ECall ENone ise [EVar item1; ECall (EVar eq2) gi2 []]) (ECall (EVar rf2) cl [EVar _]))];
+        SReturn (ECall ENone rc2 (EVar ix2 :: EBin pl2 (EVar offs2) (ENum 1) :: EVar nrf1 :: ECall ENone mv2 [EVar tp2] :: _))]] =>
+      if (st =? "*") && (offs =? "offsets") && (offs1 =? "offsets") && (offs2 =? "offsets") && (pl1 =? "+") && (pl2 =? "+") &&
+         (mi =? "mIndexes") && (co =? "ContainsOffset") && (ix =? "index") && (ix1 =? "index") && (ix2 =? "index") &&
+         (off =? off1) && (off =? off2) && (off =? off3) &&
+         (tc =? "tuple_cat") && (mv =? "move") && (mv1 =? "move") && (mv2 =? "move") && (mt =? "make_tuple") &&
+         (tp =? "tuple") && (tp2 =? "tuple") && (nt =? nt1) && (eq1 =? "equal") && (eq2 =? "equal") && (gi1 =? "GetItem") && (gi2 =? "GetItem") &&
+         (rc1 =? "pvSelectRec") && (rc2 =? "pvSelectRec") && (rf1 =? "rowFilter") && (rf2 =? "rowFilter") && (cl =? "()") &&
+         (nrf =? nrf1) && (gr =? "GetRaw") && (gbo =? "GetByOffset") && (raw =? raw1) && (item =? item1) && (an =? "&&") && (ise =? "IsEqual")
+      then Some (if has_col cols (fst e) then ((tuple ++ [e])%list, f) else (tuple, fun r => holds ct r e && f r))
+      else None
+  | _ => None
+  end.
+
+(* the final overload: pvMakeSelection(mIndexes.FindRaws(index, tuple, version), rowFilter) *)
+Definition base_tree (t : list pstmt) : bool :=
+  match t with
+  | [SReturn (ECall ENone mk [ECall (EVar mi) fr [EVar ix; EVar tp; _]; EVar rf; _])] =>
+      (mk =? "pvMakeSelection") && (mi =? "mIndexes") && (fr =? "FindRaws") && (ix =? "index") && (tp =? "tuple") && (rf =? "rowFilter")
+  | _ => false
+  end.
+
+Fixpoint rec_tree (step base : list pstmt) (eqs : list eqn) (f : Z -> bool) (tuple : list eqn) : option (list eqn * (Z -> bool)) :=
+  match eqs with
+  | [] => if base_tree base then Some (tuple, f) else None
+  | e :: eqs' => match step_tree step e f tuple with Some (t', f') => rec_tree step base eqs' f' t' | None => None end
+  end.
+End RecTree.
+
+Definition is_step (t : list pstmt) : bool :=
+  match step_tree (fun _ => []) [] t (0, 0%Z) (fun _ => true) [] with Some _ => true | None => false end.
+
+(* same code: every instantiated overload of pvSelectRec is a step or the base *)
+Lemma all_same_code : forallb (fun t => is_step t || base_tree t) Gen_Protocol.T_pvSelectRec_all = true.
+Proof. Timeout 300 vm_compute. reflexivity. Qed.
+
+Definition first_step : list pstmt := match filter is_step Gen_Protocol.T_pvSelectRec_all with t :: _ => t | [] => [] end.
+Definition first_base : list pstmt := match filter base_tree Gen_Protocol.T_pvSelectRec_all with t :: _ => t | [] => [] end.
+
+Lemma first_step_spec ct cols e f tuple :
+  step_tree ct cols first_step e f tuple =
+  Some (if has_col cols (fst e) then ((tuple ++ [e])%list, f) else (tuple, fun r => holds ct r e && f r)).
+Proof.
+  remember first_step as t eqn:Et. vm_compute in Et. subst t. reflexivity.
+Qed.
+
+Lemma first_base_spec : base_tree first_base = true.
+Proof. vm_compute. reflexivity. Qed.
+
+(* the recursion over the equalities, run on the dumped overloads, is the hand model select_rec *)
+Theorem generated_pvSelectRec ct cols : forall eqs f tuple,
+  rec_tree ct cols first_step first_base eqs f tuple = Some (select_rec ct cols eqs f tuple).
+Proof.
+  induction eqs as [|e eqs IH]; intros f tuple; cbn [rec_tree select_rec].
+  - rewrite first_base_spec. reflexivity.
+  - rewrite first_step_spec. destruct (has_col cols (fst e)); apply IH.
+Qed.
